@@ -88,7 +88,7 @@ def dof_positions(space, cell, x):
 
 
 FAMILIES = [("P1", "jj"), ("P1", "flux"), ("P2", "pmw"), ("P2", "flux"), ("DG1", "pmw"), ("vP1", "jj"), ("P2", "mr"), ("P1", "mr"),
-            ("P2", "oneside"), ("P1", "oneside"), ("P1", "geo")]
+            ("P2", "oneside"), ("P1", "oneside"), ("P1", "geo"), ("P1", "mr1"), ("P1", "mr1s")]
 
 
 def gkind(kind):
@@ -129,6 +129,13 @@ def build(item):
         if cell in ("interval", "triangle"):
             q = q + ufl.Circumradius(dom)("-") + 3 * ufl.Circumradius(dom)("+") + ufl.CellVolume(dom)("-") * ufl.FacetArea(dom)("+")
         form = q * inner(jump(u), jump(v)) * dS + avg(h) * inner(u("-"), v("+")) * dS
+    elif kind in ("mr1", "mr1s"):
+        # two rules, one of them a ONE-POINT rule whose integrand involves one side only (its tables are not permuted);
+        # the flag of the kernel is the disjunction over its rules, whichever is processed last
+        if kind == "mr1":
+            form = inner(jump(u), jump(v)) * dS(degree=2) + inner(grad(u)("+"), grad(v)("+")) * dS(degree=1)
+        else:
+            form = inner(jump(grad(u)), jump(grad(v))) * dS(degree=2) + 3 * inner(u("-"), v("-")) * dS(degree=1)
     elif kind == "mr":
         # several quadrature rules in one interior-facet integral; the rule processed last involves one side only
         f = ufl.Coefficient(ufl.FunctionSpace(dom, make_element("P1", cell, td)))
@@ -158,9 +165,9 @@ def run(chk):
                 continue
             if quick and cell == "hexahedron" and kind != "jj":
                 continue                          # the exact tensor of a hexahedron flux form costs minutes in TLC
-            if quick and cell == "tetrahedron" and (ek, kind) not in (("P1", "jj"), ("DG1", "pmw"), ("P1", "mr"), ("P1", "oneside")):
+            if quick and cell == "tetrahedron" and (ek, kind) not in (("P1", "jj"), ("DG1", "pmw"), ("P1", "mr"), ("P1", "oneside"), ("P1", "mr1")):
                 continue
-            if quick and cell == "quadrilateral" and (ek, kind) not in (("P1", "flux"), ("P2", "pmw"), ("P1", "jj"), ("P1", "mr"), ("P2", "oneside"), ("P1", "geo")):
+            if quick and cell == "quadrilateral" and (ek, kind) not in (("P1", "flux"), ("P2", "pmw"), ("P1", "jj"), ("P1", "mr"), ("P2", "oneside"), ("P1", "geo"), ("P1", "mr1s")):
                 continue
             fams.append((cell, ek, kind))
         fams.append((cell, "DG0", "dg0"))
@@ -222,7 +229,7 @@ def run(chk):
             ex.append({"ent": canon["f"], "perm": list(p), "x": canon["x"], "w": w0, "c": c0, "oracle": False, "tag": "invalid"})
         # every code pair on the canonical configuration: an integral flagged needs_facet_permutations = false
         # must not depend on the codes at all
-        for p in (allc if (kind in ("dg0", "oneside") or not quick) else rnd.sample(allc, min(len(allc), 8))):
+        for p in (allc if (kind in ("dg0", "oneside", "mr1", "mr1s") or not quick) else rnd.sample(allc, min(len(allc), 8))):
             ex.append({"ent": canon["f"], "perm": list(p), "x": canon["x"], "w": w0, "c": c0, "oracle": False, "tag": "anycode"})
         pos0 = [[dof_positions(prog.spaces[n], cell, canon["x"][s]) for s in range(2)] for n in prog.coefs]
         for ci, cf in enumerate(P["confs"]):
